@@ -24,11 +24,11 @@ type Case struct {
 }
 
 func gen(t *rapid.T) Case {
-	return Case{Project: jgen.GenProject(t, jgen.Opts{Bodies: true, MultiByte: true, Interfaces: true, MaxUnits: 4, MaxMethods: 4, Anon: true, Wide: true})}
+	return Case{Project: jgen.GenProject(t, jgen.Opts{Bodies: true, MultiByte: true, Interfaces: true, MaxUnits: 4, MaxMethods: 4, Anon: true, Wide: true, RichDecl: true})}
 }
 
 func genScoped(t *rapid.T) Case {
-	return Case{Project: jgen.GenProject(t, jgen.Opts{Bodies: true, ScopedReuse: true, MaxUnits: 3, MaxMethods: 4, Anon: true, Wide: true})}
+	return Case{Project: jgen.GenProject(t, jgen.Opts{Bodies: true, ScopedReuse: true, MaxUnits: 3, MaxMethods: 4, Anon: true, Wide: true, RichDecl: true})}
 }
 
 func check(c Case) pbt.Verdict {
